@@ -124,6 +124,22 @@ def as_index_scalar(x):
 BOUNDS_HOOK = [None]     # callable(index, extent, where) used by kernel proofs (numba does no bounds checking)
 
 # --------------------------------------------------------------------------- the tensor
+_REAL_NDARRAY_ATTRS = frozenset(dir(_rnp.ndarray))
+
+class SymBytes:
+    """value of ndarray.tobytes(): equal iff same length and element-wise equal (a symbolic comparison forks); hash depends on the length only"""
+    def __init__(self, elems): self.elems = list(elems)
+    def __len__(self): return len(self.elems)
+    def __hash__(self): return hash(('SymBytes', len(self.elems)))
+    def __eq__(self, o):
+        if not isinstance(o, SymBytes): return NotImplemented
+        if len(o.elems) != len(self.elems): return False
+        if builtins.all(a is b or (core.is_sym(a) and core.is_sym(b) and a.z.eq(b.z)) for a, b in zip(self.elems, o.elems)): return True
+        return bool(core.And(*[a == b for a, b in zip(self.elems, o.elems)]))
+    def __ne__(self, o):
+        r = self.__eq__(o)
+        return r if r is NotImplemented else not r
+
 class ndarray:
     """strided view onto a storage.
     vd: per view axis either ('ax', storage_axis, start, step) or ('new',)
@@ -152,6 +168,18 @@ class ndarray:
         return r
     @property
     def itemsize(self): return self.dtype.itemsize
+    @property
+    def nbytes(self): return self.size * self.dtype.itemsize
+    def tobytes(self, order='C'):
+        """the bytes of the array in C order, as a hashable value whose equality is element-wise equality of same-length contents (shape and dtype
+        are NOT part of it, as in numpy); only for concrete extents and one-byte elements"""
+        if order != 'C' or self.dtype.itemsize != 1 or not builtins.all(isinstance(d, int) for d in self.shape): raise NeedsContract('ndarray.tobytes in this form')
+        import itertools as _it
+        return SymBytes([self.at(*i) for i in _it.product(*[builtins.range(d) for d in self.shape])])
+    def __getattr__(self, name):
+        # an attribute of numpy.ndarray that this model lacks is a limit of the model (undecided), never an AttributeError of the code under proof
+        if not name.startswith('_') and name in _REAL_NDARRAY_ATTRS: raise NeedsContract('ndarray.%s (not modelled)' % name)
+        raise AttributeError(name)
     def __len__(self):
         if not self.shape: raise TypeError('len() of unsized object')
         return _LenInt.wrap(self.shape[0])
@@ -318,9 +346,19 @@ class ndarray:
                 _, a, s0, st0 = self.vd[ax]; fixed[a] = s0
         r = ndarray([self.shape[a] for a in keep], self.dtype, self.st, [self.vd[a] for a in keep], fixed, self.nst, self.ro_alias)
         return r
+    def _f_layout(self):
+        """True iff the view is the whole storage with its axes reversed (numpy: F-contiguous and not C-contiguous), rank >= 2"""
+        def same(x, y): return x is y or (isinstance(x, int) and isinstance(y, int) and x == y)
+        n = self.ndim
+        if n < 2 or self.fixed or self.nst != n or self.st.shape is None or len(self.st.shape) != n: return False
+        if not builtins.all(self.vd[i] == ('ax', n - 1 - i, 0, 1) for i in range(n)): return False
+        return builtins.all(same(self.shape[i], self.st.shape[n - 1 - i]) for i in range(n))
     def reshape(self, *shape, order='C'):
         if len(shape) == 1 and isinstance(shape[0], (tuple, list)): shape = tuple(shape[0])
         shape = [mk_int(s.z) if isinstance(s, SInt) else (int(s) if isinstance(s, _rnp.integer) else s) for s in shape]
+        if order == 'A': order = 'F' if self._f_layout() else 'C'       # numpy: Fortran order iff the array is Fortran contiguous in memory
+        if order == 'F': return _reshape(self.transpose(), shape[::-1]).transpose()
+        if order != 'C': raise NeedsContract('reshape(order=%r)' % (order,))
         return _reshape(self, shape)
     def flatten(self): return _reshape(self, [-1], copy=True)
     def ravel(self): return _reshape(self, [-1])
@@ -948,6 +986,9 @@ def asarray(x, dtype=None):
     if isinstance(x, ndarray) and (dtype is None or _rnp.dtype(dtype) == x.dtype): return x
     return array(x, dtype=dtype, copy=False)
 def ascontiguousarray(x, dtype=None): return asarray(x, dtype)
+def asfortranarray(x, dtype=None):
+    a = asarray(x, dtype)
+    return a if a.ndim < 2 else a.transpose().copy().transpose()
 def copy(x): return x.copy()
 def arange(*a, dtype=None):
     if builtins.all(isinstance(v, (int, _rnp.integer)) for v in a):
@@ -956,6 +997,20 @@ def arange(*a, dtype=None):
         n = a[0]; dt = _rnp.dtype(dtype or 'int64')
         return ndarray.fresh((n,), lambda i: core.cast(i[0], dt), dt)
     raise NeedsContract('symbolic arange')
+
+class _Random:
+    """numpy.random: only `choice(a, size)` over a 1-D array, as an arbitrary (havoc) selection of `size` positions of it"""
+    class _Picked:
+        def __init__(self, vals): self.vals = vals
+        def tolist(self): return list(self.vals)
+    def choice(self, a, size=None, **kw):
+        if kw or not isinstance(size, int) or not isinstance(a, ndarray) or a.ndim != 1: raise NeedsContract('numpy.random.choice in this form')
+        n = a.shape[0]; out = []
+        for _ in builtins.range(size):
+            k = core.sym_int(core.fresh_name('pick'), 0); core.assume(core.zi(k) < core.zi(n)); out.append(a[k])
+        return _Random._Picked(out)
+    def __getattr__(self, n): raise NeedsContract('numpy.random.%s (uninterpreted dependency)' % n)
+random = _Random()
 
 def isscalar(x): return isinstance(x, (int, float, complex, SInt, SBV, SFloat, SBool, _rnp.generic))
 def shape(x): return x.shape
@@ -1052,7 +1107,7 @@ def moveaxis(a, source, destination):
     return a.transpose(tuple(order))
 def transpose(a, axes=None): return a.transpose(axes) if axes is not None else a.transpose()
 def squeeze(a, axis=None): return a.squeeze(axis)
-def reshape(a, shape): return a.reshape(shape)
+def reshape(a, shape, order='C'): return asarray(a).reshape(shape, order=order)
 def roll(a, shift, axis=None):
     if axis is None:
         # numpy rolls the FLATTENED array and restores the shape: elements cross row boundaries
